@@ -13,9 +13,10 @@ import fs_common as F
 
 IMPORTS = "Base Codebase Exclude GenScan FsScan Cache"
 SUP = ("let supported := fun n : pystr => if pystr_eqb n %s then Some %s else if pystr_eqb n %s then Some %s "
-       "else if pystr_eqb n %s then Some %s else None in "
+       "else if pystr_eqb n %s then Some %s else if pystr_eqb n %s then Some %s else None in "
        "let analyze := fun (l : pystr) (c : Z) => mkAnalysis l c (if c =? 0 then [] else [c]) in "
-       % (LC.pystr("a.py"), LC.pystr("Python"), LC.pystr("b.js"), LC.pystr("JavaScript"), LC.pystr("c.py"), LC.pystr("Python")))
+       % (LC.pystr("a.py"), LC.pystr("Python"), LC.pystr("b.js"), LC.pystr("JavaScript"), LC.pystr("c.py"), LC.pystr("Python"),
+          LC.pystr("e.ts"), LC.pystr("TypeScript")))
 
 
 def op_alphabet():
@@ -196,6 +197,10 @@ def run(tier, seed, replay=None):
         rng = chk.rng
         for a, b, c in rng.sample(list(itertools.product(alpha, repeat=3)), 6000):
             histories.append(prefix + [a, b, ("scan",), c, ("scan",)])
+    # every change of one file's content between two scans (incl. large files that differ only in their last bytes)
+    for p in F.PATHS:
+        for c1, c2 in itertools.permutations(F.CONTENT_IDS, 2):
+            histories.append(prefix + [("write", p, c1), ("scan",), ("write", p, c2), ("scan",)])
     rng = chk.rng
     for _ in range(40 if tier == "quick" else 1500):
         h = []
